@@ -628,7 +628,8 @@ func initTopicGrp(t *Topic) error {
 	stopic, err := store.Topics.Get(t.name)
 	if err != nil {
 		return err
-	} else if stopic == nil {
+	} else if stopic == nil || stopic.State == types.StateDeleted {
+		// The adapter returns soft-deleted topics too.
 		return types.ErrTopicNotFound
 	}
 
@@ -672,7 +673,8 @@ func initTopicSys(t *Topic) error {
 	stopic, err := store.Topics.Get(t.name)
 	if err != nil {
 		return err
-	} else if stopic == nil {
+	} else if stopic == nil || stopic.State == types.StateDeleted {
+		// The adapter returns soft-deleted topics too.
 		return types.ErrTopicNotFound
 	}
 
